@@ -89,6 +89,17 @@ func checkParams(funcDef interface{}, impTyp reflect.Type,
 	return nil
 }
 
+// checkReturnCount 检查 Return() 未传任何返回值的情况: 函数有返回值时, 在配置阶段即报错
+func checkReturnCount(funcDef interface{}, value []interface{}) {
+	impTyp := reflect.TypeOf(funcDef)
+	if impTyp == nil || impTyp.Kind() != reflect.Func {
+		return
+	}
+	if len(value) == 0 && impTyp.NumOut() > 0 {
+		panic(erro.NewReturnsNotMatchError(funcDef, 0, impTyp.NumOut()))
+	}
+}
+
 // NewWhen 创建默认 When
 func NewWhen(funTyp reflect.Type) *When {
 	return &When{
